@@ -304,7 +304,9 @@ class Session:
     def _state_hook(self, new, old):
         self.states.append((str(new), str(old)))
         # 4th element: where _run is at this moment (only meaningful for request-driven changes)
-        self.timeline.append(("state", str(new), str(old), run_phase(self.RE) if new in _REQ_STATES else ""))
+        req = new in _REQ_STATES
+        # 4th: where _run is; 5th: the coroutine _run is awaiting ('sleep' = between two messages, otherwise inside a command)
+        self.timeline.append(("state", str(new), str(old), run_phase(self.RE) if req else "", run_awaiting(self.RE) if req else ""))
 
     def _doc_cb(self, name, doc):
         self.docs.append((name, doc))
@@ -538,6 +540,29 @@ def run_phase(RE):
     if fr.f_lineno >= exc:
         return "ending"
     return "loop"
+
+
+def run_awaiting(RE):
+    """Name of the coroutine RunEngine._run is directly awaiting (None if it is not suspended in an await)."""
+    t = getattr(RE, "_task", None)
+    if t is None or t.done():
+        return None
+    co = t.get_coro()
+    if getattr(co, "cr_running", False):
+        # _run itself is executing (it is the one changing the state): reading cr_await of a running coroutine
+        # peeks at its live value stack and can crash the interpreter (CPython 3.12)
+        # -> find the awaited coroutine on the Python stack instead: the frame _run's frame called into
+        import sys
+
+        target, f, callee = co.cr_frame, sys._getframe(), None
+        while f is not None and f is not target:
+            callee, f = f, f.f_back
+        if f is target and callee is not None and callee.f_code.co_flags & 0x180:  # CO_COROUTINE | CO_ITERABLE_COROUTINE
+            return callee.f_code.co_name
+        return "running"
+    aw = getattr(co, "cr_await", None)
+    code = getattr(aw, "cr_code", None) or getattr(aw, "gi_code", None)
+    return getattr(code, "co_name", type(aw).__name__ if aw is not None else None)
 
 
 def _plain(x):
